@@ -333,3 +333,68 @@ def report(ctx, prop, rule):
              "setter model (%s): for [%s] the setter gives exception=%s, store=%s, effects=%s; specification: exception=%s, store=%s, effects=%s (%d disagreeing cases)" % (
                  ASPECTS[prop], cfg, got[0], got[1], got[2], want[0], want[1], want[2], len(bad)),
              key="%s::setter-model::%s" % (f.qualname, prop))
+
+
+def watcher_raises_model(ctx, rule):
+    """Parameter.__set__ on an initialised instance with two value watchers and no batch open, where the FIRST watcher the
+    setter hands to `_call_watcher` raises.
+
+    Specification (C05): the exception leaves the setter, and nothing is handed to a queue on its way out: every
+    `_call_watcher` call made after the failure is followed by a flush before the exception leaves (the object has no
+    batch open -- whatever stays queued would be delivered by some later, unrelated assignment)."""
+    f = ctx.repo.method(PARAMETER, "__set__")
+    OLD, NEW = Obj("old_value"), Obj("new_value")
+    w_high, w_low = Obj("w_high", precedence=1), Obj("w_low", precedence=0)
+    priv = Obj("private", initialized=True, syncing=[], refs={}, values={"x": OLD}, watchers={"x": {"value": [w_high, w_low]}}, async_refs={})
+    ns = Obj("inst_ns", _BATCH_WATCH=False, _events=[], _state_watchers=[])
+    inst = Obj("inst", _param__private=priv, param=ns)
+    pobj = Obj("param_x", name="x", allow_refs=False, constant=False, readonly=False, default=OLD, watchers={}, owner=Obj("Owner"))
+    trace = []
+
+    def hook(fn, args, kwargs):
+        if fn == "hasattr":
+            return False if (len(args) == 2 and args[1] == "set_hook") else True
+        if fn == "getattr" and len(args) >= 2 and isinstance(args[0], Obj):
+            return args[0].attrs.get(args[1], args[2] if len(args) > 2 else TOP)
+        if fn == "isinstance":
+            return True
+        if fn in ("self._validate", "self._post_setter", "self._relink") or fn.endswith("._update_deps"):
+            return None
+        if fn.endswith("._call_watcher"):
+            first = not any(t[0] == "dispatch" for t in trace)
+            trace.append(("dispatch", getattr(args[0], "name", "?")))
+            if first:
+                raise _Raise("RuntimeError")
+            return None
+        if fn.endswith("._batch_call_watchers") and not fn.startswith("_batch"):
+            trace.append(("flush",))
+            return None
+        if fn == "_batch_call_watchers":
+            trace.append(("scope", kwargs.get("run", True)))
+            return Obj("scope")
+        if fn == "Event" and not args:
+            return Obj("event", **kwargs)
+        if fn == "warnings.warn":
+            return None
+        return NotImplemented
+    it = Interp(ctx.hier, dyn=PARAMETER, call_hook=hook, globals={"Undefined": Obj("Undefined"), "NotImplemented": Obj("NotImplemented"), "_identity_hook": Obj("_identity_hook")})
+    try:
+        outs = it.run_all(f, {"self": pobj, "obj": inst, "val": NEW})
+    except Unsupported as e:
+        raise AnalysisError("setter model (raising watcher): absint cannot interpret Parameter.__set__: %s" % e)
+    if len(outs) != 1 or outs[0].imprecise:
+        raise AnalysisError("setter model (raising watcher): Parameter.__set__ is not interpretable precisely (%s)" % (outs[0].notes[:2] if outs else "no outcome"))
+    ctx.abstract_cases += 1
+    o = outs[0]
+    after = trace[1:] if trace and trace[0][0] == "dispatch" else trace
+    later = [i for i, t in enumerate(after) if t[0] == "dispatch"]
+    flushed = later and any(t[0] == "flush" for t in after[later[-1]:])
+    if o.kind != "raise":
+        ctx.fail(rule, f, f.node, "setter model (raising watcher): the exception of a watcher is swallowed by the setter", key=f.qualname + "::watcher-exception-swallowed")
+    elif later and not flushed:
+        ctx.fail(rule, f, f.node, "setter model (raising watcher): after a watcher raised, the setter hands the remaining watchers (%s) to `_call_watcher` on its way out and leaves without a flush: "
+                                  "with no batch open the event and those watchers stay queued on the object and are delivered by the next unrelated assignment (repeated faults pile up)" % (
+                                      ", ".join(after[i][1] for i in later)), key=f.qualname + "::requeue-after-failure",
+                 input="two watchers on x, the first raises: p.x = 1 -> RuntimeError; p.y = 2 -> the second watcher of x is called with the stale event")
+    else:
+        ctx.ok(rule, f, f.node, "setter model (raising watcher): the exception leaves the setter and nothing is queued on its way out")
